@@ -6,6 +6,7 @@ import (
 	"github.com/bokysan/socketace/v2/internal/util/addr"
 	"github.com/bokysan/socketace/v2/internal/util/buffers"
 	"github.com/bokysan/socketace/v2/internal/util/cert"
+	"github.com/bokysan/socketace/v2/internal/verifhook"
 	ms "github.com/multiformats/go-multistream"
 	"github.com/pkg/errors"
 	log "github.com/sirupsen/logrus"
@@ -127,9 +128,11 @@ func (ul *Upstreams) Connect(config cert.ConfigGetter, subProtocol string) (stre
 	if ul.connection == nil || ul.connection.Closed() {
 		ul.connection = nil
 		ul.session = nil
+		verifhook.At("upstream.locked")
 		err = ul.open(config.CertManager())
 	}
 	ul.mutex.Unlock()
+	verifhook.At("upstream.unlocked")
 
 	if err != nil {
 		return nil, err
